@@ -294,6 +294,9 @@ func (st *State) modularCall(fr *Frame, in ssa.Instruction, fn *ssa.Function, c 
 		}
 		st.oblige("pre", name+"."+label, mergeProps(props, e.curProps), e.evalClause(sc, r), pos)
 	}
+	if c.Assumed {
+		e.assumeUsed("assumed contract (body not verified): " + name)
+	}
 	st.onModularCall(fr, fn, c, args, pos)
 	preAlloc := st.alloc()
 	st.bumpAlloc()
